@@ -22,8 +22,9 @@
     section; the model follows the code and C07_stop_terminates is proved at full strength: the kill is skipped
     only when the creation of the root itself failed (there is nothing to kill; Start returns start-failed). *)
 From Coq Require Import List NArith Bool.
-From Vivid Require Import System.Lifecycle System.LifecycleProofs.
+From Vivid Require Import System.Lifecycle System.LifecycleProofs System.LifecycleStop.
 From Vivid Require System.LockOrder System.LockOrderProofs.
+From Vivid Require System.LifeLock System.LifeLockProofs System.LifeLockCluster System.RootSpawn System.RootSpawnProofs.
 Import ListNotations.
 Local Open Scope N_scope.
 
@@ -302,6 +303,198 @@ Theorem C07_lock_inversion_deadlocks :
       LockOrder.held t1 = [LockOrder.actorOfLock] /\ LockOrder.todo t1 = LockOrder.Acq LockOrder.statusLock :: r1).
 Proof. exact (conj LockOrderProofs.mutant_not_ordered LockOrderProofs.mutant_deadlock). Qed.
 
+
+(** ============================ (8) ONE machine: life cycle + statusLock + actorOfLock ============================
+
+    System/LifeLock.v merges the micro-step model with the lock view: its state is a Lifecycle state ([LifeLock.base])
+    plus actorOfLock; the start-up chain behind the root is refined into its System.ActorOf calls ("@metrics",
+    "@remoting", "@cluster", the singleton proxy manager, the singleton manager - [LifeLock.links], from the
+    configuration), each of them  actorOfLock.Lock(); Context.ActorOf (may fail); deferred Unlock  executed by the Start
+    thread while it holds statusLock; stop's Leave() is refined into its entry, the System.ActorOf call of the helper actor
+    (the only one that can ever close leaveWait) and the step to the blocking wait; any number of external goroutines
+    call System.ActorOf.  [LifeLock.reachable2 c s]: s is the state after SOME event sequence of SOME population of
+    Start / Stop(timeout) / cancel callers and SOME number of external System.ActorOf callers.  The lock-step harness
+    replays every controlled run of the real code on THIS machine (every actorOfLock.Lock() is a scheduling point; after
+    every step the holders of both locks are compared). *)
+
+(** refinement: every step of the merged machine is a stutter or one step of the micro-step machine on [base], hence the
+    abstract part of every reachable state is reachable there - EVERY theorem above holds of [base s] *)
+Theorem C07_merged_refines (c : LifeLock.cfg2) (s : LifeLock.st2) :
+  LifeLock.reachable2 c s -> reachable (LifeLock.c_base c) (LifeLock.base s).
+Proof. exact (LifeLockProofs.refines c s). Qed.
+
+Theorem C07_merged_step_refines (c : LifeLock.cfg2) e (s s' : LifeLock.st2) :
+  LifeLock.step2 c e s = Some s' ->
+  LifeLock.base s' = LifeLock.base s \/ exists e', step (LifeLock.c_base c) e' (LifeLock.base s) = Some (LifeLock.base s').
+Proof. exact (LifeLockProofs.step2_base c e s s'). Qed.
+
+(** for instance: Stop terminates the system, on the merged machine *)
+Theorem C07_merged_stop_terminates (c : LifeLock.cfg2) (s : LifeLock.st2) i k r :
+  LifeLock.reachable2 c s -> nth_error (thr (LifeLock.base s)) i = Some (Done k r) -> stop_nil k r = true ->
+  hasCtx (LifeLock.base s) = true ->
+  status (LifeLock.base s) = Stopped /\ schedStopped (LifeLock.base s) = true /\ kills (LifeLock.base s) = 1 /\
+  guardClosed (LifeLock.base s) = true /\ ctxDone (LifeLock.base s) = true.
+Proof. exact (fun R => stop_terminates (LifeLock.c_base c) (LifeLock.base s) i k r (LifeLockProofs.refines c s R)). Qed.
+
+(** both mutexes are mutual-exclusion locks; [alock] (the lock word) and the program counters agree *)
+Theorem C07_merged_actorOf_mutex (c : LifeLock.cfg2) (s : LifeLock.st2) t t' :
+  LifeLock.reachable2 c s -> LifeLock.holds_actorOf s t = true -> LifeLock.holds_actorOf s t' = true -> t = t'.
+Proof. exact (LifeLockProofs.actorOf_mutex c s t t'). Qed.
+
+Theorem C07_merged_actorOf_holder (c : LifeLock.cfg2) (s : LifeLock.st2) t :
+  LifeLock.reachable2 c s -> (LifeLock.alock s = Some t <-> LifeLock.holds_actorOf s t = true).
+Proof. exact (LifeLockProofs.alock_holder c s t). Qed.
+
+Theorem C07_merged_status_mutex (c : LifeLock.cfg2) (s : LifeLock.st2) i j :
+  LifeLock.reachable2 c s -> LifeLock.holds_status s i = true -> LifeLock.holds_status s j = true -> i = j.
+Proof. exact (LifeLockProofs.status_mutex c s i j). Qed.
+
+(** the hierarchy statusLock < actorOfLock: a life-cycle thread inside System.ActorOf is either in the start-up chain -
+    then it holds statusLock, taken BEFORE - or in Leave() - then it holds nothing else *)
+Theorem C07_merged_lock_hierarchy (c : LifeLock.cfg2) (s : LifeLock.st2) i :
+  LifeLock.reachable2 c s -> LifeLock.holds_actorOf s (LifeLock.OLife i) = true ->
+  exists p, nth_error (thr (LifeLock.base s)) i = Some p /\
+    ((p = SChain /\ lock (LifeLock.base s) = Some i) \/ (exists w d, p = TLeaveReq w d /\ LifeLock.holds_status s i = false)).
+Proof. exact (LifeLockProofs.life_holder_where c s i). Qed.
+
+(** whoever stands in front of statusLock holds nothing - not actorOfLock either (no ABBA) ... *)
+Theorem C07_merged_status_waiter_holds_nothing (c : LifeLock.cfg2) (s : LifeLock.st2) i :
+  LifeLock.reachable2 c s -> LifeLock.wants_status s i = true ->
+  LifeLock.holds_actorOf s (LifeLock.OLife i) = false /\ LifeLock.holds_status s i = false.
+Proof. exact (LifeLockProofs.status_waiter_holds_nothing c s i). Qed.
+
+(** ... and so does whoever waits for the environment (context cancel / leave / tree-or-timeout) *)
+Theorem C07_merged_env_waiter_holds_nothing (c : LifeLock.cfg2) (s : LifeLock.st2) i p :
+  LifeLock.reachable2 c s -> nth_error (thr (LifeLock.base s)) i = Some p -> env_wait (LifeLock.base s) p ->
+  LifeLock.holds_actorOf s (LifeLock.OLife i) = false /\ LifeLock.holds_status s i = false.
+Proof. exact (LifeLockProofs.env_waiter_holds_nothing c s i p). Qed.
+
+(** DEADLOCK FREEDOM with both locks, one theorem about one model: in every reachable state every unfinished thread - a
+    Start / Stop / cancel caller, the guard goroutine, an external System.ActorOf caller - can take a step, or stands in
+    front of actorOfLock whose holder can take a step, or stands in front of statusLock whose holder can take a step or
+    stands in front of actorOfLock whose holder can take a step, or waits for the environment only *)
+Theorem C07_merged_no_deadlock (c : LifeLock.cfg2) (s : LifeLock.st2) t :
+  LifeLock.reachable2 c s -> LifeLock.unfinished s t ->
+  LifeLock.can_step c s t
+  \/ LifeLockProofs.blocked_on_actorOf c s t
+  \/ (exists i j, t = LifeLock.OLife i /\ LifeLock.wants_status s i = true /\ lock (LifeLock.base s) = Some j /\ j <> i /\
+        (LifeLock.can_step c s (LifeLock.OLife j) \/ LifeLockProofs.blocked_on_actorOf c s (LifeLock.OLife j)))
+  \/ LifeLock.env_wait2 s t.
+Proof. exact (LifeLockProofs.no_deadlock2 c s t). Qed.
+
+(** hence: while some thread is unfinished and does not wait for the environment only, SOME thread can step *)
+Theorem C07_merged_some_thread_can_step (c : LifeLock.cfg2) (s : LifeLock.st2) t :
+  LifeLock.reachable2 c s -> LifeLock.unfinished s t -> ~ LifeLock.env_wait2 s t -> exists t', LifeLock.can_step c s t'.
+Proof. exact (LifeLockProofs.some_thread_can_step c s t). Qed.
+
+(** the holder of actorOfLock is never blocked; the holder of statusLock is blocked at most by the holder of actorOfLock *)
+Theorem C07_merged_actorOf_holder_progress (c : LifeLock.cfg2) (s : LifeLock.st2) o :
+  LifeLock.reachable2 c s -> LifeLock.alock s = Some o -> LifeLock.can_step c s o.
+Proof. exact (LifeLockProofs.actorOf_holder_progress c s o). Qed.
+
+Theorem C07_merged_status_holder_progress (c : LifeLock.cfg2) (s : LifeLock.st2) j :
+  LifeLock.reachable2 c s -> lock (LifeLock.base s) = Some j ->
+  LifeLock.can_step c s (LifeLock.OLife j) \/ LifeLockProofs.blocked_on_actorOf c s (LifeLock.OLife j).
+Proof. exact (LifeLockProofs.status_holder_progress c s j). Qed.
+
+(** every step of a thread strictly decreases its own rank ([LifeLock.rank2]: at most 20 * (3 * #chain calls + 8) for a
+    life-cycle call, 4 for an external caller): bounded number of own steps, chain and Leave() included *)
+Theorem C07_merged_own_steps (c : LifeLock.cfg2) (s : LifeLock.st2) t alt s' :
+  LifeLock.reachable2 c s -> LifeLock.step2 c (LifeLock.ev_of t alt) s = Some s' ->
+  (LifeLock.rank2 c s' t < LifeLock.rank2 c s t)%nat.
+Proof. exact (LifeLockProofs.own_steps2 c s t alt s'). Qed.
+
+
+(** the unsynchronised read `if s.clusterContext != nil` of stop: the start-up chain assigns the field in the MIDDLE of
+    Start's critical section ([LifeLock.clusterNow]: the field as the code writes it; the lock-step harness compares it with
+    the real field after every step); whenever no thread is inside the chain it has its final value ([clusterCtx] of the
+    micro-step model) - in particular whenever some stop stands at its read *)
+Theorem C07_merged_cluster_field_settled (c : LifeLock.cfg2) (s : LifeLock.st2) :
+  LifeLock.reachable2 c s -> (forall i, nth_error (thr (LifeLock.base s)) i <> Some SChain) ->
+  LifeLock.clusterNow s = clusterCtx (LifeLock.base s).
+Proof. exact (LifeLockCluster.cluster_field_settled c s). Qed.
+
+Theorem C07_merged_cluster_read_consistent (c : LifeLock.cfg2) (s : LifeLock.st2) i w d :
+  LifeLock.reachable2 c s -> nth_error (thr (LifeLock.base s)) i = Some (TReadCluster w d) ->
+  LifeLock.clusterNow s = clusterCtx (LifeLock.base s).
+Proof. exact (LifeLockCluster.cluster_read_consistent c s i w d). Qed.
+
+(** ============================ (9) every stop that gets through cancels the context ============================
+
+    s.cancel() stands BEFORE the select on guardClosedSignal / time.After, whose timeout arm returns early.  (A cancel
+    placed after the select is skipped by a timed-out Stop: the status is `stop`, every later Stop answers
+    already-stopped, the guard goroutine stays parked for ever - seeded change C07-r3-cancel-after-wait.) *)
+
+(** once an effective stop has RETURNED - nil or stop-failed, from Stop(), the guard's stop(false), Start's failure path -
+    the context is cancelled (if a root exists at all; otherwise root creation failed and no guard goroutine exists) *)
+Theorem C07_returned_stop_cancelled c s i k r :
+  reachable c s -> nth_error (thr s) i = Some (Done k r) -> eff_returned k r = true -> hasCtx s = true -> ctxDone s = true.
+Proof. exact (returned_stop_cancelled c s i k r). Qed.
+
+Theorem C07_select_after_cancel c s i w dl :
+  reachable c s -> nth_error (thr s) i = Some (TSelect w dl) -> ctxDone s = true.
+Proof. exact (select_after_cancel c s i w dl). Qed.
+
+(** every state with status `stop` in which nothing can move any more (whatever the clock; the cluster leave, if requested,
+    completed): EVERY thread has finished - the context-guard goroutine included - and the context is cancelled *)
+Theorem C07_stopped_system_quiesces c s :
+  reachable c s -> quiescent c s -> status s = Stopped -> (leaveReq s = true -> leaveDone s = true) ->
+  (forall i p, nth_error (thr s) i = Some p -> is_done p = true) /\ (hasCtx s = true -> ctxDone s = true).
+Proof. exact (stopped_system_quiesces c s). Qed.
+
+(** the same in terms of the linearisation log: some stop passed its status switch having seen `start` *)
+Theorem C07_effective_stop_quiesces c s j :
+  reachable c s -> quiescent c s -> In (j, false, Started) (lin s) -> (leaveReq s = true -> leaveDone s = true) ->
+  (forall i p, nth_error (thr s) i = Some p -> is_done p = true) /\ (hasCtx s = true -> ctxDone s = true).
+Proof. exact (effective_stop_quiesces c s j). Qed.
+
+(** ============================ (10) System.ActorOf racing Stop ============================
+
+    System/RootSpawn.v: the micro-steps of Context.ActorOf on the root (read of the state; registration of the child; the
+    final check that kills the new child when the parent is no longer running) against the root's handling of the OnKill of
+    stop's Kill(root) (CAS running -> killing; kill the children of a snapshot of the table; die when the table is empty),
+    any number of callers, any interleaving, the OnKill taken at any moment.  [rreachable true]: the code since /repo 6438ab6
+    (the final check RE-READS the state after the registration); [rreachable false]: the code before (it used the value
+    read at the top) - found by this check: Stop ran into its timeout on an idle system / returned nil with an actor alive. *)
+
+(** once the root has collected its children and every ActorOf call has returned, every child in its table has been sent a kill *)
+Theorem C07_actorof_registered_child_is_killed (s : RootSpawn.rs) :
+  RootSpawn.rreachable true s -> RootSpawnProofs.all_callers_done s ->
+  RootSpawn.rp s = RootSpawn.RWait \/ RootSpawn.rp s = RootSpawn.RDead ->
+  forall ch, In ch (RootSpawn.children s) -> In ch (RootSpawn.killSent s).
+Proof. exact (RootSpawnProofs.registered_child_is_killed s). Qed.
+
+(** Stop does not wait for a child nobody kills: while the root waits, it dies (empty table) or a child of the table terminates *)
+Theorem C07_actorof_root_wait_progress (s : RootSpawn.rs) :
+  RootSpawn.rreachable true s -> RootSpawnProofs.all_callers_done s -> RootSpawn.rp s = RootSpawn.RWait ->
+  exists e s', RootSpawn.rstep true e s = Some s' /\
+    (e = RootSpawn.ERoot \/ exists ch, e = RootSpawn.EDie ch /\ (length (RootSpawn.children s') < length (RootSpawn.children s))%nat).
+Proof. exact (RootSpawnProofs.root_wait_progress s). Qed.
+
+(** in every state in which nothing can move any more: every ActorOf call has returned, the root is dead and its table is
+    empty - every actor whose ActorOf succeeded has terminated *)
+Theorem C07_actorof_quiescent_all_terminated (s : RootSpawn.rs) :
+  RootSpawn.rreachable true s -> RootSpawn.rquiescent true s ->
+  RootSpawnProofs.all_callers_done s /\ RootSpawn.rp s = RootSpawn.RDead /\ RootSpawn.rst s = RootSpawn.RKilled /\ RootSpawn.children s = [].
+Proof. exact (RootSpawnProofs.quiescent_all_terminated s). Qed.
+
+(** sharpness - the stale read: a reachable state in which nothing can move any more, the root waits (killing) for child 0
+    that was never sent a kill ... *)
+Theorem C07_actorof_stale_read_orphans :
+  RootSpawn.rreachable false RootSpawnProofs.stale_orphan /\ RootSpawn.rquiescent false RootSpawnProofs.stale_orphan /\
+  RootSpawn.rp RootSpawnProofs.stale_orphan = RootSpawn.RWait /\ RootSpawn.rst RootSpawnProofs.stale_orphan = RootSpawn.RKilling /\
+  RootSpawn.children RootSpawnProofs.stale_orphan = [0%nat] /\ RootSpawn.killSent RootSpawnProofs.stale_orphan = [] /\
+  RootSpawn.callers RootSpawnProofs.stale_orphan = [RootSpawn.ADone (Some 0%nat)].
+Proof. exact RootSpawnProofs.stale_orphan_facts. Qed.
+
+(** ... and one in which the root is dead and child 0 is alive, never sent a kill *)
+Theorem C07_actorof_stale_read_survivor :
+  RootSpawn.rreachable false RootSpawnProofs.stale_survivor /\ RootSpawn.rquiescent false RootSpawnProofs.stale_survivor /\
+  RootSpawn.rp RootSpawnProofs.stale_survivor = RootSpawn.RDead /\ RootSpawn.rst RootSpawnProofs.stale_survivor = RootSpawn.RKilled /\
+  RootSpawn.children RootSpawnProofs.stale_survivor = [0%nat] /\ RootSpawn.killSent RootSpawnProofs.stale_survivor = [] /\
+  RootSpawn.callers RootSpawnProofs.stale_survivor = [RootSpawn.ADone (Some 0%nat)].
+Proof. exact RootSpawnProofs.stale_survivor_facts. Qed.
+
 (** ============================ non-vacuity ============================ *)
 
 Definition ex_cfg : cfg := {| cfg_cluster := false; cfg_timeout := 5 |}.
@@ -419,6 +612,74 @@ Example C07_ex_lock_conforms :
   LockOrder.ordered_prefix [] [LockOrder.Acq 1; LockOrder.Acq 0] = false.
 Proof. vm_compute. repeat split. Qed.
 
+
+(** merged machine: a metrics-enabled system (one System.ActorOf call in the chain). Start holds statusLock and stands in
+    front of actorOfLock, which an external System.ActorOf caller holds; a Stop stands in front of statusLock: a reachable
+    state meeting the hypotheses of C07_merged_no_deadlock (third disjunct for the Stop, second for the Start),
+    C07_merged_lock_hierarchy / C07_merged_status_waiter_holds_nothing; the external caller can step *)
+Definition ex_cfg2 : LifeLock.cfg2 :=
+  {| LifeLock.c_base := ex_cfg; LifeLock.c_metrics := true; LifeLock.c_remoting := false; LifeLock.c_singletons := false |}.
+Definition ex_blocked_evs : list LifeLock.ev2 :=
+  [LifeLock.E2Life 0 0; LifeLock.E2Life 0 0; LifeLock.E2Life 0 0; LifeLock.E2Life 0 0; LifeLock.E2Life 0 0;
+   LifeLock.E2Ext 0 0; LifeLock.E2Ext 0 0; LifeLock.E2Life 1 0].
+Definition ex_merged_blocked : LifeLock.st2 := LifeLock.run2 ex_cfg2 ex_blocked_evs (LifeLock.init2 [SLock; TLock ByStop None] 1).
+Example C07_ex_merged_blocked :
+  LifeLock.reachable2 ex_cfg2 ex_merged_blocked /\
+  nth_error (thr (LifeLock.base ex_merged_blocked)) 0 = Some SChain /\ LifeLock.getsub ex_merged_blocked 0 = LifeLock.AAcq 0 /\
+  lock (LifeLock.base ex_merged_blocked) = Some 0%nat /\ LifeLock.alock ex_merged_blocked = Some (LifeLock.OExt 0) /\
+  LifeLock.wants_status ex_merged_blocked 1 = true /\
+  LifeLock.step2 ex_cfg2 (LifeLock.E2Life 0 0) ex_merged_blocked = None /\
+  LifeLock.step2 ex_cfg2 (LifeLock.E2Life 1 0) ex_merged_blocked = None /\
+  exists s', LifeLock.step2 ex_cfg2 (LifeLock.E2Ext 0 0) ex_merged_blocked = Some s'.
+Proof.
+  split; [apply LifeLockProofs.reachable2_run; reflexivity|].
+  repeat (split; [vm_compute; reflexivity|]). eexists. vm_compute. reflexivity.
+Qed.
+
+(** ... and the whole run to the end on a single-node cluster with metrics (chain: @metrics, @remoting, @cluster, proxy
+    manager; stop goes through Leave()): Start nil, Stop nil, guard already-stopped, both locks free *)
+Definition ex_cfg3 : LifeLock.cfg2 :=
+  {| LifeLock.c_base := {| cfg_cluster := true; cfg_timeout := 5 |}; LifeLock.c_metrics := true; LifeLock.c_remoting := true; LifeLock.c_singletons := false |}.
+Fixpoint rep2 (n : nat) (e : LifeLock.ev2) : list LifeLock.ev2 := match n with O => [] | S k => e :: rep2 k e end.
+Definition ex_cluster_evs : list LifeLock.ev2 :=
+  (rep2 19 (LifeLock.E2Life 0 0) ++ rep2 9 (LifeLock.E2Life 1 0) ++ [LifeLock.E2Leave] ++
+   rep2 4 (LifeLock.E2Life 1 0) ++ [LifeLock.E2Tree] ++ rep2 2 (LifeLock.E2Life 1 0) ++ rep2 5 (LifeLock.E2Life 2 0))%nat.
+Definition ex_merged_cluster : LifeLock.st2 := LifeLock.run2 ex_cfg3 ex_cluster_evs (LifeLock.init2 [SLock; TLock ByStop None] 0).
+Example C07_ex_merged_cluster :
+  LifeLock.reachable2 ex_cfg3 ex_merged_cluster /\ length (LifeLock.links ex_cfg3) = 4%nat /\
+  thr (LifeLock.base ex_merged_cluster) = [Done KStart RNil; Done KStop RNil; Done KGuard RAlreadyStopped] /\
+  LifeLock.alock ex_merged_cluster = None /\ lock (LifeLock.base ex_merged_cluster) = None /\
+  LifeLock.clusterNow ex_merged_cluster = true /\ clusterCtx (LifeLock.base ex_merged_cluster) = true /\
+  LifeLock.leaveHelper ex_merged_cluster = true /\ status (LifeLock.base ex_merged_cluster) = Stopped /\
+  ctxDone (LifeLock.base ex_merged_cluster) = true.
+Proof.
+  split; [apply LifeLockProofs.reachable2_run; reflexivity|]. vm_compute. repeat split.
+Qed.
+
+(** (9): ex_seq and ex_timeout are states with status stop in which an effective stop has returned (nil / stop-failed) *)
+Example C07_ex_stop_cancelled :
+  eff_returned KStop RNil = true /\ eff_returned KStop RStopFailed = true /\
+  hasCtx ex_seq = true /\ ctxDone ex_seq = true /\ hasCtx ex_timeout = true /\ ctxDone ex_timeout = true /\
+  status ex_seq = Stopped /\ (leaveReq ex_seq = true -> leaveDone ex_seq = true).
+Proof. vm_compute. repeat split. intros H; discriminate H. Qed.
+
+(** (10): two callers against the root's OnKill on the repaired code - a reachable state in which the root waits, every call
+    has returned and both children have been sent a kill; the run goes on to the state in which everything is gone *)
+Definition ex_race_evs : list RootSpawn.rsev :=
+  [RootSpawn.ECall 0; RootSpawn.ECall 1; RootSpawn.ERoot; RootSpawn.ECall 0; RootSpawn.ERoot;
+   RootSpawn.ECall 1; RootSpawn.ECall 0; RootSpawn.ECall 1].
+Definition ex_race : RootSpawn.rs := RootSpawn.rrun true ex_race_evs (RootSpawn.rinit 2).
+Example C07_ex_actorof_race :
+  RootSpawn.rreachable true ex_race /\ RootSpawn.rp ex_race = RootSpawn.RWait /\ RootSpawn.children ex_race = [1; 0]%nat /\
+  RootSpawn.callers ex_race = [RootSpawn.ADone (Some 0%nat); RootSpawn.ADone (Some 1%nat)] /\
+  (forall ch, In ch (RootSpawn.children ex_race) -> In ch (RootSpawn.killSent ex_race)) /\
+  RootSpawn.rp (RootSpawn.rrun true [RootSpawn.EDie 0; RootSpawn.EDie 1; RootSpawn.ERoot] ex_race) = RootSpawn.RDead /\
+  RootSpawn.children (RootSpawn.rrun true [RootSpawn.EDie 0; RootSpawn.EDie 1; RootSpawn.ERoot] ex_race) = [].
+Proof.
+  split; [apply RootSpawnProofs.rreachable_run|]. vm_compute. repeat split.
+  intros ch [<-|[<-|[]]]; auto.
+Qed.
+
 Print Assumptions C07_mutex.
 Print Assumptions C07_lock_released.
 Print Assumptions C07_no_deadlock.
@@ -451,3 +712,28 @@ Print Assumptions C07_lock_mutex.
 Print Assumptions C07_lock_order_acyclic.
 Print Assumptions C07_status_waiter_holds_nothing.
 Print Assumptions C07_lock_inversion_deadlocks.
+Print Assumptions C07_merged_refines.
+Print Assumptions C07_merged_step_refines.
+Print Assumptions C07_merged_stop_terminates.
+Print Assumptions C07_merged_actorOf_mutex.
+Print Assumptions C07_merged_actorOf_holder.
+Print Assumptions C07_merged_status_mutex.
+Print Assumptions C07_merged_lock_hierarchy.
+Print Assumptions C07_merged_status_waiter_holds_nothing.
+Print Assumptions C07_merged_env_waiter_holds_nothing.
+Print Assumptions C07_merged_no_deadlock.
+Print Assumptions C07_merged_some_thread_can_step.
+Print Assumptions C07_merged_actorOf_holder_progress.
+Print Assumptions C07_merged_status_holder_progress.
+Print Assumptions C07_merged_own_steps.
+Print Assumptions C07_returned_stop_cancelled.
+Print Assumptions C07_select_after_cancel.
+Print Assumptions C07_stopped_system_quiesces.
+Print Assumptions C07_effective_stop_quiesces.
+Print Assumptions C07_actorof_registered_child_is_killed.
+Print Assumptions C07_actorof_root_wait_progress.
+Print Assumptions C07_actorof_quiescent_all_terminated.
+Print Assumptions C07_actorof_stale_read_orphans.
+Print Assumptions C07_actorof_stale_read_survivor.
+Print Assumptions C07_merged_cluster_field_settled.
+Print Assumptions C07_merged_cluster_read_consistent.
